@@ -11,5 +11,6 @@ Spec == Init /\ [][Next]_s
 Verdict == TokAccepts(s) \in BOOLEAN
 PreBound == LET p == Pre(s) IN ~p.ok \/ Len(p.toks) <= 2 * Len(s)
 (* a sequence that starts a statement with an operand token is never accepted *)
-OperandFirst == (s # << >> /\ s[1] \in {"DEC", "HEX", "STR", "REG"}) => (~TokAccepts(s) /\ TokResult(s).code = "parse::unexpected_token")
+OperandFirst == (s # << >> /\ s[1] \in {"DEC", "HEX", "STR", "REG"}) =>
+                  (~TokAccepts(s) /\ (Pre(s).ok => TokResult(s).code = "parse::unexpected_token"))
 =============================================================================
